@@ -525,12 +525,13 @@ class Scenario:
             self.calls[lid] = []
             # targets of several kinds: a callable object; a plain function; the bound method of an object that nothing
             # else refers to (a client writes `interp.bind(Mailbox(log).deliver)`)
-            k3 = lid % 4
-            if k3 == 0:
+            self._ncall = getattr(self, '_ncall', 0) + 1
+            k3 = ('eq', 'eq', 'queue', 'fn', 'mail', 'eq')[(self._ncall - 1) % 6]     # (two equal callables first)
+            if k3 == 'eq':
                 fn = EqCallable(self.calls[lid])
-            elif k3 == 1:
+            elif k3 == 'fn':
                 fn = (lambda log: (lambda e: log.append(ev_value(e))))(self.calls[lid])
-            elif k3 == 2:
+            elif k3 == 'mail':
                 fn = Mailbox(self.calls[lid]).deliver
             else:
                 fn = QueueLike(self.calls[lid])      # a callable that also happens to have a method called `queue`
